@@ -126,7 +126,7 @@ func checkC18(c *Ctx) error {
 		c.Eval(B+"|"+d.yaml, bsem && d.kind == "str")
 		c.Add("pairs_judged", 1)
 		for _, b := range run.Contract() {
-			c.Violate("cli-contract:"+sigWords(b), b, files)
+			c.Side("C10,C12", "cli-contract:"+sigWords(b), b, files)
 		}
 		got := "accept"
 		if run.Res.Exit != 0 {
